@@ -4,7 +4,8 @@
   `visible S F`   what a request with feature set `F` may see of schema `S`: the registered types
                   whose required features are enabled, each with the fields whose required features
                   are enabled and the interfaces that are themselves visible; a mutation / subscription root
-                  type only if its required features are enabled (fix C13/04).
+                  type only if its required features are enabled (fix C13/04); of a directive the arguments
+                  whose type's required features are enabled (fix C13/05).
   `describe D V`  the description the property statement asks for, computed from a visible schema
                   `V` as a plain comprehension over its type table: each type, field, argument,
                   input field, enum value, interface and union membership and directive exactly
@@ -32,7 +33,8 @@ def restrict (S : Schema) (F : List String) (t : TypeDef Unit) : TypeDef Unit :=
 def visible (S : Schema) (F : List String) : SchemaDef Unit :=
   { S.defn with types := (S.defn.types.filter (fun t => visibleName S F t.name)).map (restrict S F),
                 mutation := visibleRoot S.defn F S.defn.mutation,
-                subscription := visibleRoot S.defn F S.defn.subscription }
+                subscription := visibleRoot S.defn F S.defn.subscription,
+                directives := S.defn.directives.map (visibleDirective S.defn F) }
 
 /-- The object types of `V` that declare interface `i`. -/
 def implementers (V : SchemaDef Unit) (i : String) : List String :=
